@@ -32,7 +32,7 @@ def oracle(case, obs):
     if case.get('_kind') == 'listener':
         # a listener that raises changes nothing about the process
         ref = life.strip_obs(life.run_case(dict(case, listeners=[])))
-        strip = lambda t: [e for e in t if not (e[0] == 'ctl' and e[1][0] == 'raise')]
+        strip = lambda t: [(e[:3] if e[0] == 'ctl' else e) for e in t if not (e[0] == 'ctl' and e[1][0] == 'raise')]
         if strip(tr) != strip(ref['trace']) or core(obs['final']) != core(ref['final']):
             return {'signature': 'listener_fault_changed_the_run', 'kind': 'listener'}
         return None
